@@ -164,6 +164,9 @@ class SpecMixin:
             return self.read_attr(st, v, node.args[1].value, node.args[2].value if len(node.args) > 2 else None)
         if nm == 'alloc0':
             return alloc0(to_ref(self.ev(node.args[0], st, fr)))
+        if nm in ('objsub', 'objadd', 'objmul'):
+            op = {'objsub': ast.Sub(), 'objadd': ast.Add(), 'objmul': ast.Mult()}[nm]
+            return self.object_binop(op, self.ev(node.args[0], st, fr), self.ev(node.args[1], st, fr), st, fr)
         if nm == 'cint':
             return self.coerce_ctype(self.ev(node.args[0], st, fr), 'int')
         if nm == 'to_int':
